@@ -6,6 +6,12 @@
    with many concrete addresses per class and several concrete databases per behaviour (recording fake, answers only
    for the expected IP); the recorded calls are validated by TLC (LocationLabelTrace): label by class (verdict),
    database use (verdict), error return (drift).
+2b. labels of the real collectors' series: TLC-simulated histories of LocationLabelHist.tla (which metrics call looks a
+   client up, which series it feeds; per-client database behaviour scripted and CHANGING: error / no country / country)
+   are replayed on prometheus.NewServiceMetrics; after every step the labels whose series grew are recorded for
+   tcp_connections_opened/closed, data_bytes_per_location, udp_packets_from_client_per_location and
+   tunnel_time_seconds_per_location, and LocationLabelTrace checks them against Label(class, behaviour in force at the
+   lookup that feeds the series) - the same client is looked up many times per history.
 3. exposure (ii): TLC-generated traffic histories of TunnelTime.tla (open/auth/close/probe/udp add/packets/remove/
    scrape) are replayed on the REAL prometheus.NewServiceMetrics collectors (private registry) from distinctive client
    addresses; the text exposition and the gathered series are scanned for client IP literals (all textual forms) and
@@ -298,10 +304,11 @@ def lh_judge(ctx, behs, rows, desc):
         reported.add(k)
         hist = " ; ".join("%s(%s)" % (s["a"], ",".join(str(s[x]) for x in ("c", "ip", "key", "m") if s.get(x))) for s in behs[bi][1:si + 1])
         ctx.violation(sig,
-                      "location labels of the real collectors: step %d of a scripted history fed %s with label(s) %s but the "
-                      "table gives %s for the lookup(s) %s (class, database behaviour in force at that lookup); history: %s" % (
-                          si, LH_NAMES.get(fam, fam), ev.get("got"),
-                          "exactly" if ev.get("mode") == "eq" else "a subset of", json.dumps(ev.get("want") or ev.get("cls")),
+                      "location labels of the real collectors: step %d of a scripted history fed %s with label(s) %s; the "
+                      "decision table allows %s the label(s) of the lookup(s) %s (client class, database behaviour in force at "
+                      "that lookup, country the database answers); history: %s" % (
+                          si, LH_NAMES.get(fam, fam), ev.get("got") if "got" in ev else "(database asked)",
+                          "exactly" if ev.get("mode") == "eq" else "only", json.dumps(ev.get("want") if "want" in ev else ev.get("cls")),
                           hist[-700:]),
                       {"kind": "labelhist", "behaviour": behs[bi], "step": si, "event": ev})
     return len(events), len(behs) - len(bad), res
